@@ -14,7 +14,7 @@ from collections import deque
 
 import numpy as np
 
-from rv import probes
+from rv import probes, contracts
 from rv.gen import trees as G
 from rv.oracles import topo
 
@@ -363,10 +363,12 @@ def run(ctx):
 
     tap = probes.CallTap({"redirect_tree": tree_utils.redirect_tree,
                           "cat_tree": tree_utils.cat_tree})
+    contracts.install()  # (after the tap: it re-binds these names to the contracted wrappers)
     with tap:
         _workload(ctx)
     for k, v in tap.counts.items():
         ctx.count("tap_" + k, v)
+    contracts.report(ctx, "C07")
 
 
 def _workload(ctx):
